@@ -143,5 +143,9 @@ def _var_map_value(value: Any) -> Any:
     if isinstance(value, str) and re.match(
         "^[0-9]{4}[01][0-9][0-3][0-9]$", value
     ):
-        return dt.datetime.strptime(value, "%Y%m%d")
+        try:
+            return dt.datetime.strptime(value, "%Y%m%d")
+        except ValueError:
+            # {value} looks like a date (e.g. '20241340'), but is NOT one.
+            return value
     return value
